@@ -102,8 +102,9 @@ class Transformer(BaseEstimator, TransformerMixin, ABC):
                 coords[data.name] = data
             else:
                 # Make sure the DataArray has some name so we can create a string mapping
+                # (on a renamed shallow copy: the array may be an object of the user, e.g. the weights)
                 if data.name is None:
-                    data.name = key
+                    data = data.rename(key)
                 data_vars[data.name] = data
             ds = xr.Dataset(data_vars=data_vars, coords=coords)
             name_map = data.name
